@@ -259,7 +259,7 @@ for _f, _c in (("add_layer", "pushes the layer, context = that layer's index, no
                ("set_tag_user_data", "Ok iff tag index in range: that tag gets the record, all other tags unchanged, context advances to the next tag; Err leaves everything unchanged; no panic for any index"),
                ("add_user_data", "the C10 attachment rule: the record goes to the entity named by the current context (layer / cel / slice / sprite / next tag) and NOTHING else changes; Err iff no context or the entity does not exist")):
     V("v_ud_" + _f, "userdata", "ParseInfo::%s: %s" % (_f, _c), ["parse::ParseInfo::" + _f], fn=_f, witness="x_userdata_exhaustive")
-V("v_parse_frame", "userdata", "parse_frame (the per-frame chunk dispatch) for EVERY chunk sequence: frame magic checked, duration stored for this frame, chunk count taken from the new field unless it is 0, and the attachment context / layer count / slice count evolve exactly by the C10 rule per chunk kind (layer, cel, slice, tags only in frame 0, legacy palette -> sprite, user data advances a tag context; ignorable chunks, colour profile, new palette, external files, tilesets leave it untouched)",
+V("v_parse_frame", "userdata", "parse_frame (the per-frame chunk dispatch) for EVERY chunk sequence: frame magic checked, duration stored for this frame, chunk count taken from the new field unless it is 0, and the attachment context / layer count / slice count evolve exactly by the C10 rule per chunk kind (layer, cel, slice, tags only in frame 0, legacy palette -> sprite, user data advances a tag context; ignorable chunks, colour profile, new palette, external files, tilesets leave it untouched); C11: the sprite's palette is the fold 'a new-format chunk always replaces it, a legacy chunk is used only while there is none' over the chunk sequence (new format wins in either order)",
   ["parse::parse_frame"], fn="parse_frame", witness="x_userdata_exhaustive")
 V("v_read_aseprite", "header", "read_aseprite: Ok => the 128-byte header is present with magic 0xA5E0 and the sprite reports frames / width / height / pixel format (incl. transparent index) exactly as stored at offsets 6/8/10/12/28, one frame-time slot per frame; a pixel ratio other than 1:1 (both components non-zero) and colour depths other than 8/16/32 are refused; every parse_frame call has a slot for its frame",
   ["parse::read_aseprite"], fn="read_aseprite", witness=["x_refusals", "x_roundtrip_structure"])
